@@ -1,7 +1,7 @@
 SPECIFICATION Spec
 CONSTANTS
   Mode = "tree"
-  MCFields = {"time_begin", "facecolor", "show_label"}
+  MCFields = {"time_begin", "time_end", "facecolor", "show_label", "zorder"}
   MCValues = {"a", "b"}
   MCSub = ""
   MaxSets = 2
